@@ -6,7 +6,9 @@ EXTENDS NetworkRules, Json
 Q_Bases == {"single", "sidingL", "junction"}
 T_Bases == {"plain", "single", "siding", "sidingL", "junction", "junctionL"}
 P_Bases == {"junctionL"}            \* pairs of faults
-V_Bases == {"plain", "junction"}    \* pinned variant (vacuity): must re-find F-C16-1 (junction) and F-C16-2 (plain)
+PQ_Bases == {"plain"}              \* pairs of faults, quick tier
+VC_Bases == {"junction"}           \* fault models (bin/selftest): pinned variant must re-find F-C16-1 on junction (touching sections rejected),
+VP_Bases == {"plain"}              \* F-C16-2 on plain (out-of-range reference indexed), skip1 variant F-C16-4 on plain
 
 (* every description is a case: the harness renders `net` in each layout and format *)
 Emit == PrintT(<<"REPLAY", ToJson([base |-> base, faults |-> faults, net |-> net])>>)
